@@ -4,6 +4,7 @@ CFG = dict(
     run_targets=["C01/Run.vo"], proof_targets=["C01/Props.vo"], props="C01/Props.v",
     gen_obligations=[
         "Inst.gen_quorum_majority: two quorums of the size lib.rs computes always intersect",
+        "Inst.gen_quorum_within: the quorum size never exceeds the cluster size (n >= 1)",
         "Inst.gen_ack_verified: the follower's match_index is within the prefix the request verified",
         "Inst.gen_commit_verified: the follower's commit index is monotone and within that prefix",
         "Inst.gen_stale_ok: AppendEntriesResponse from an earlier term is dropped",
@@ -21,6 +22,6 @@ CFG = dict(
     assumptions=["crash = the node object is dropped and rebuilt with RaftNode::with_wal from its own WAL file (C10 covers torn writes of that file)"],
 )
 MANIFEST = dict(
-    text="Election safety over the whole history of every schedule is a Coq theorem about the executable cluster model (refinement to an abstract voting protocol + quorum intersection), for every cluster size and for the quorum size and acknowledgement rules regenerated from the source on every run. The model is replayed against clusters of real RaftNodes on seeded schedules (every observation and every message must agree), and the four safety properties of the statement (one leader per term, log matching, committed entries never contradicted, later leaders hold committed entries) are evaluated as oracles on the implementation's own observations, including a corpus schedule that broke leader completeness before the ack-rule repair.",
-    note="Trusted: Coq kernel, rs2v.py + gen_C01.py (ack rule, stale-ack rule, quorum size), harness + driver, the read-only hook. Log matching / leader completeness / state-machine safety theorems: see Props.v for what is proved in full and what is labelled partial.",
+    text="All four clauses of the statement are Coq theorems about the executable cluster model, for every cluster size, every schedule (deliveries in any order with duplication and loss, timeouts with and without pre-vote, proposals, heartbeats, refusal oracles, crash/restart) and for the quorum size, acknowledgement, follower-commit and stale-response rules regenerated from the source on every run: election safety (refinement to an abstract voting protocol + quorum intersection), log matching (ghost ledger of leader logs), leader completeness for quorum-acknowledged entries, and state-machine safety across time (C01_state_machine_safety: whatever one node reported committed up to k after a schedule is what any node holds and reports up to k after any continuation; C01_leader_holds_committed: every later leader holds it). The model is replayed against clusters of real WAL-backed RaftNodes on seeded and corpus schedules (every observation and every message must agree), and the four safety clauses are also evaluated as oracles on the implementation's own observations, including a corpus schedule that broke leader completeness before the ack-rule repair.",
+    note="Trusted: Coq kernel, rs2v.py + gen_C01.py (ack rule, follower-commit rule, stale-ack rule, quorum size), harness + driver, the read-only hook. Modelled, not verified: fixed membership, no snapshot/compaction, no leadership transfer; timing/float guards are refusal oracles.",
 )
